@@ -217,8 +217,9 @@ def containsCrash (s : String) : Option String :=
   | _ => none
 
 /-- everything `convert` does after `BasicVisitor().visit(tree)`, up to (not including) the
-procedure bank -/
-def convertAst (o : Options) (p0 : Prog) : Outcome × String :=
+procedure bank.  `perm` stands for the order in which a Python `set` hands out its members (it
+depends on the hash seed): every set that reaches the output is passed through it. -/
+def convertAstP (perm : List String → List String) (o : Options) (p0 : Prog) : Outcome × String :=
   let p := if o.addStandardPrefix then { p0 with lines := standardPrefix o.defaultWidth32 ++ p0.lines } else p0
   let procname := effProcname o
   let p := { p with procname := procname }
@@ -238,10 +239,10 @@ def convertAst (o : Options) (p0 : Prog) : Outcome × String :=
   let p := mapProg (setDimStorage o.defaultStrStorage sizes) p
   let evs := Visit.prog p
   let dimmedAll := dimmedNames evs
-  let implicit := sortStrings ((arrayRefs evs).filter (fun n => !(dimmedArrays evs).contains n))
+  let implicit := sortStrings (perm ((arrayRefs evs).filter (fun n => !(dimmedArrays evs).contains n)))
   let p := { p with lines := implicit.map (implicitDim o.initializeVars) ++ p.lines }
   let evs := Visit.prog p
-  let strVars := sortStrings ((varNames evs).filter (fun n => n.endsWith "$" && !dimmedAll.contains n))
+  let strVars := sortStrings (perm ((varNames evs).filter (fun n => n.endsWith "$" && !dimmedAll.contains n)))
   let p := if o.defaultStrStorage != 32 then
       { p with pfx := p.pfx ++ strVars.map (fun v =>
           codeLine ("DIM " ++ v ++ ":STRING[" ++ toString o.defaultStrStorage ++ "]")) }
@@ -249,7 +250,7 @@ def convertAst (o : Options) (p0 : Prog) : Outcome × String :=
   let p := if o.initializeVars then
       let evs := Visit.prog p
       let dimmed := dimmedNames evs
-      let toAssign := sortStrings ((varNames evs).filter (fun n => !dimmed.contains n))
+      let toAssign := sortStrings (perm ((varNames evs).filter (fun n => !dimmed.contains n)))
       if toAssign.isEmpty then p else
       let keep := toAssign.filter (fun v => (v.endsWith "$" && v.length ≤ 3) || v.length ≤ 2)
       { p with pfx := p.pfx ++ [{ num := none, body := .stmts true (keep.map (fun v =>
@@ -276,5 +277,7 @@ def convertAst (o : Options) (p0 : Prog) : Outcome × String :=
   match containsCrash text with
   | some k => (.internal k, procname)
   | none => (.ok text, procname)
+
+def convertAst (o : Options) (p : Prog) : Outcome × String := convertAstP id o p
 
 end CocoVerif.Model.Compile
